@@ -9,4 +9,9 @@ import DW.Model.Load
 import DW.Driver.Strings
 import DW.Driver.Codec
 import DW.Driver.Core
+import DW.Model.StdLaws
+import DW.Lemmas.Strings
+import DW.Lemmas.Dump
+import DW.Props.C01
+import DW.Props.C03
 import DW.Props.C08
